@@ -292,6 +292,7 @@ func cmdCheck(args []string) int {
 	}{Outcomes: map[string]bool{}, Counters: map[string]int{}, Kinds: map[string]int{}, Exhaustive: true}
 
 	printedKnownEarly := map[string]bool{}
+	origOf := map[string][2]string{} // relabelled monitor -> original (property, monitor), for replay matching
 	var deciding, cross []mc.Found
 	var knownHits []string
 	nondet := ""
@@ -362,6 +363,7 @@ func cmdCheck(args []string) int {
 					}
 					continue
 				}
+				origOf[f.Property+"/"+f.Monitor] = [2]string{f.Property, f.Monitor}
 				f.Monitor = f.Property + "/" + f.Monitor
 				f.Property = "C20"
 			}
@@ -401,7 +403,7 @@ func cmdCheck(args []string) int {
 			continue
 		}
 		printedViol[id] = true
-		path := writeReplay(outDir, units, f)
+		path := writeReplay(outDir, units, f, origOf[f.Monitor])
 		// A livelock is a property of the explored graph (a bottom SCC with a cycle), not of one
 		// step; determinism of the graph is what the replay validation of the search establishes.
 		confirmed := f.Monitor == "livelock" || confirmReplay(path)
@@ -506,9 +508,12 @@ type replayFile struct {
 	Unit     unit            `json:"unit"`
 	Trace    []string        `json:"trace"`
 	Input    json.RawMessage `json:"input,omitempty"`
+	// MatchProperty/MatchMonitor: what the world itself reports (a monitor of another property counted for C20).
+	MatchProperty string `json:"match_property,omitempty"`
+	MatchMonitor  string `json:"match_monitor,omitempty"`
 }
 
-func writeReplay(dir string, units []unit, f mc.Found) string {
+func writeReplay(dir string, units []unit, f mc.Found, orig [2]string) string {
 	_ = os.MkdirAll(dir, 0o755)
 	var u unit
 	for _, x := range units {
@@ -517,10 +522,10 @@ func writeReplay(dir string, units []unit, f mc.Found) string {
 		}
 	}
 	u.Deadline = 0
-	rf := replayFile{Property: f.Property, Monitor: f.Monitor, Detail: f.Detail, Features: f.Features, Unit: u, Trace: f.Trace}
+	rf := replayFile{Property: f.Property, Monitor: f.Monitor, Detail: f.Detail, Features: f.Features, Unit: u, Trace: f.Trace, MatchProperty: orig[0], MatchMonitor: orig[1]}
 	raw, _ := json.MarshalIndent(rf, "", " ")
 	sum := sha256.Sum256(raw)
-	path := filepath.Join(dir, f.Monitor+"-"+hex.EncodeToString(sum[:4])+".json")
+	path := filepath.Join(dir, strings.ReplaceAll(f.Monitor, "/", "_")+"-"+hex.EncodeToString(sum[:4])+".json")
 	_ = os.WriteFile(path, raw, 0o644)
 	return path
 }
